@@ -63,8 +63,11 @@ def run_jaqal_circuit(circuit, backend=None, force_sim=False, emulator_backend=N
 
         backend = UnitarySerializedEmulator()
 
-    expanded = expand_macros(fill_in_let(expand_subcircuits(circuit)))
-    return backend(expanded).execute()
+    try:
+        expanded = expand_macros(fill_in_let(expand_subcircuits(circuit)))
+        return backend(expanded).execute()
+    except RecursionError:
+        raise JaqalError("Circuit is nested too deeply to be run") from None
 
 
 def run_jaqal_string(jaqal, import_path=None, **kwargs):
